@@ -392,13 +392,17 @@ MaxArgs(m) ==
       [] m \in {"setUTCMinutes", "setMinutes", "setUTCFullYear", "setFullYear"} -> 3
       [] m \in {"setUTCHours", "setHours"} -> 4
 
-(* d.m(v1, ...) on a Date object with time value t: outcome value <<returned, new time value>> *)
+(* d.m(v1, ...) on a Date object with time value t, observed as               *)
+(* [TRYV(function(){ return d.m(v1, ...) }), d.getTime()]: the returned value *)
+(* (or what the conversion of an argument threw) and the time value after     *)
+(* the call - an abrupt conversion leaves the Date object unchanged           *)
+ThrownBy(c) == IF c.thr = "value" THEN [t |-> "thr", name |-> "value", v |-> c.v] ELSE [t |-> "thr", name |-> c.thr]
 SetCall(m, t, vs) ==
     LET n == IF Len(vs) > MaxArgs(m) THEN MaxArgs(m) ELSE Len(vs)
         early == D("D12k_setters_skip_argument_conversion") /\ m # "setTime"     \* builtinDateBeforeSet
     IN  IF early /\ IsNaN(t) THEN R(ArrV(<<NumV(NaN), NumV(NaN)>>), <<>>)           \* returns before converting anything
         ELSE LET c == ToNumbers(SubSeq(vs, 1, n), 1, <<>>, <<>>, early)
-             IN  IF c.thr # "" THEN [thr |-> c.thr, v |-> c.v, log |-> c.log]
+             IN  IF c.thr # "" THEN R(ArrV(<<ThrownBy(c), NumV(t)>>), c.log)
                  ELSE LET r == Setter(m, t, c.nums) IN R(ArrV(<<NumV(r.ret), NumV(r.t)>>), c.log)
 
 (* 15.9.5: every method of Date.prototype except toJSON throws a TypeError   *)
